@@ -144,7 +144,10 @@ func (corSelf *CorDef[T]) YieldFrom(target *CorDef[T], in T) T {
 		return result
 	}
 
-	target.receive(corSelf, in)
+	if !target.receive(corSelf, in) {
+		// The target has already completed: nobody will ever answer
+		return result
+	}
 
 	// fmt.Println(corSelf, "Wait for", "result")
 	result, _ = <-corSelf.resultCh
@@ -153,14 +156,17 @@ func (corSelf *CorDef[T]) YieldFrom(target *CorDef[T], in T) T {
 	return result
 }
 
-func (corSelf *CorDef[T]) receive(cor *CorDef[T], in T) {
+func (corSelf *CorDef[T]) receive(cor *CorDef[T], in T) bool {
+	delivered := false
 	corSelf.doCloseSafe(func() {
 		if corSelf.opCh != nil {
 			// fmt.Println(corSelf, "Wait for", "receive", cor, in)
 			corSelf.opCh <- &CorOp[T]{cor: cor, val: in}
 			// fmt.Println(corSelf, "Wait for", "receive", "done")
+			delivered = true
 		}
 	})
+	return delivered
 }
 
 // YieldFromIO Yield from a given MonadIO
@@ -211,9 +217,13 @@ func (corSelf *CorDef[T]) doCloseSafe(fn func()) {
 	}
 	verifPoint("cor.safe.checked", corSelf)
 	corSelf.closedM.Lock()
+	defer corSelf.closedM.Unlock()
+	if corSelf.IsDone() {
+		// Completed while waiting for the lock: the channels are closed
+		return
+	}
 	verifPoint("cor.safe.locked", corSelf)
 	fn()
-	corSelf.closedM.Unlock()
 }
 
 // Cor Cor utils instance
